@@ -217,11 +217,35 @@ theorem hmac_eq_rfc2104 (key msg : List UInt8) (hk : key.length < 2 ^ 61) (hm : 
     hmac key msg = (Spec.hmacSha256 key msg, true) :=
   hmac_eq key msg hk hm
 
+/-- the body of `Sha256::hmac` as TRANSLATED from the current `Sha256.hpp` (`Nstd/Generated/Sha256Body.lean`: local object, the
+`if`/`else` key normalisation with `Memory::copy`/`Memory::zero` as checked block writes `storeAt`/`zeroAt` at pointer offsets,
+`finalize` into the first `digestSize` bytes of `hashKey` through the reference cast, the pad loop, the inner and outer pass
+over `blockSize`/`digestSize`-byte prefixes of the local arrays) is HMAC of RFC 2104 over SHA-256: for every key (longer than,
+equal to, shorter than the block size, empty), every message and EVERY initial content of the four local arrays
+`hashKey oKeyPad iKeyPad hash` (uninitialised in C++) - every byte of them that is read has been written before; the ghost flag
+(no array/block read out of range, no `usize` subtraction wrapped, no block write outside its array) stays true.  Hence the
+translated body and the hand-written `hmac` of Model.lean agree. -/
+theorem hmac_translated_eq_rfc2104 (hashKey0 oKeyPad0 iKeyPad0 hash0 key msg : List UInt8)
+    (h1 : hashKey0.length = 64) (h2 : oKeyPad0.length = 64) (h3 : iKeyPad0.length = 64) (h4 : hash0.length = 32)
+    (hk : key.length < 2 ^ 61) (hm : msg.length + 64 < 2 ^ 61) :
+    Sha256Body.hmac hashKey0 oKeyPad0 iKeyPad0 hash0 key msg = (Spec.hmacSha256 key msg, true) ∧
+    Sha256Body.hmac hashKey0 oKeyPad0 iKeyPad0 hash0 key msg = hmac key msg := by
+  have h := gen_hmac_spec hashKey0 oKeyPad0 iKeyPad0 hash0 key msg h1 h2 h3 h4 hk hm
+  exact ⟨h, by rw [h, hmac_eq key msg hk hm]⟩
+
+/-- an empty input (in C++ possibly `(nullptr, 0)`): with `size == 0` the loop of the translated `update` - the only place that
+dereferences `data` - is not entered and the object is left exactly as it was (`count`, buffer, state, ghost flag) -/
+theorem update_empty_is_identity (p : Sha) : Sha256Body.update p [] = p ∧ update p [] = p := by
+  refine ⟨?_, rfl⟩
+  rw [gen_update_eq]; rfl
+
 /-! ### non-vacuity: the hypotheses are met by concrete non-trivial inputs -/
 
 example : ([[0x61], [], [0x62, 0x63]] : List (List UInt8)).flatten.length < 2 ^ 61 := by decide
 example : Reusable (reset (update init [1, 2, 3])) := (reusable_after_finalize_or_reset.2.2.2 init reusable_after_finalize_or_reset.1 [[1, 2, 3]])
 example : (List.replicate 70 (0xaa : UInt8)).length < 2 ^ 61 ∧ ([0x61] : List UInt8).length + 64 < 2 ^ 61 := by decide
+example : (List.replicate 64 (0xaa : UInt8)).length = 64 ∧ (List.replicate 32 (0xaa : UInt8)).length = 32 ∧
+    (List.replicate 131 (0xaa : UInt8)).length < 2 ^ 61 := by decide
 example : Sha256.H0.length = 8 ∧ (data32 (List.replicate 64 0)).length = 16 := by decide
 example : ∃ st0 : Sha256U2.RS, st0.W.length = 16 ∧ st0.state.length = 8 ∧ st0.ok = true ∧ st0.a = 7 :=
   ⟨{ W := List.replicate 16 5, state := Sha256.H0, a := 7, b := 1, c := 2, d := 3, e := 4, f := 5, g := 6, h := 9, ok := true },
